@@ -154,8 +154,13 @@ def allocStep (st : AllocSt) (is : Nat × Int) : AllocSt :=
     map := if 0 < is.2 then aset st.map is.1 (st.num : Int) else st.map,
     split := st.split ++ List.replicate is.2.toNat is.1 }
 
+/-- `for i, s in enumerate(nodes_segments)` from index `i` on. -/
+def allocGo : Nat → List Int → AllocSt → AllocSt
+  | _, [], st => st
+  | i, s :: ss, st => allocGo (i + 1) ss (allocStep st (i, s))
+
 def alloc (N : Nat) (segs : List Int) : AllocSt :=
-  ((List.range N).zip segs).foldl allocStep { num := N, map := Array.replicate N (-1), split := [] }
+  allocGo 0 segs { num := N, map := Array.replicate N (-1), split := [] }
 
 /-- Phase 3 for one `(i, e)`: `if seg > 0: seg + nodes_map[n] - 1 else n`. -/
 def newId (map : Array Int) (l : Int) (n : Nat) : Nat :=
